@@ -150,6 +150,27 @@ def run(chk):
                     chk.ob('from-start', '%s<%s>::from_start_address(bit %d set) = Err' % (T.split('::')[-1], sname, j), bool(o) and all(x.kind == 'ret' and x.val.vname == 'Err' for x in o), 'paths %r' % (o,),
                            fn_site(I, fn_), nontrivial=(j == 0))
     chk.guard('pages', 'page / frame containment', pages)
+
+    def sizes():
+        for sname, sb in SIZES.items():
+            S = size_ty(sname)
+            for T, AT, sym in (('structures::paging::page::Page', VA, 'v'), ('structures::paging::frame::PhysFrame', PA, 'p')):
+                short = T.split('::')[-1]
+                pg = Struct(T, [Struct(AT, [BV(64, [0] * sb + sl(sym, sb, 64))]), Struct('tuple', ())])
+                fn_ = T + '::<S>::size'
+                o = r1(fn_, [pg], {'S': S})
+                chk.ob('containing', '%s<%s>::size() = %#x' % (short, sname, 1 << sb), len(o) == 1 and o[0].kind == 'ret' and isinstance(o[0].val, BV) and o[0].val.is_const() and o[0].val.value() == 1 << sb,
+                       'paths %r' % (o,), fn_site(I, fn_))
+                fn_ = T + '::<S>::from_start_address_unchecked'
+                a = I.sym_value(adt(AT), sym)
+                o = r1(fn_, [a], {'S': S})
+                chk.ob('from-start', '%s<%s>::from_start_address_unchecked keeps the address as given' % (short, sname), len(o) == 1 and o[0].kind == 'ret' and same(inner(o[0].val), inner(a)),
+                       'paths %r' % (o,), fn_site(I, fn_), nontrivial=False)
+                fn_ = T + '::<S>::start_address'
+                o = r1(fn_, [pg], {'S': S})
+                chk.ob('containing', '%s<%s>::start_address returns the stored start' % (short, sname), len(o) == 1 and o[0].kind == 'ret' and same(inner(o[0].val), inner(pg)), 'paths %r' % (o,), fn_site(I, fn_),
+                       nontrivial=False)
+    chk.guard('pages', 'size / start_address', sizes)
     # the constructors the typed forms re-validate through (PhysAddr::new, VirtAddr::new_truncate): shared with C03
     from .c03 import constructors
     chk.guard('constructor', 'address constructors', lambda: constructors(chk))
